@@ -80,6 +80,9 @@ def worker(args):
             logging.basicConfig(level=logging.DEBUG, handlers=[logging.NullHandler()], force=True)
         try:
             res = mod.run_shard(spec, args.tier, args.seed)
+            if isinstance(spec, dict) and spec.get('optimize'):
+                res.count('sim.shards-in-optimized-interpreter' if not __debug__ else
+                          'sim.optimize-flag-not-in-effect')
         except Exception as exc:  # harness failure is never a verdict on the library
             import traceback
             res.inconclusive.append('harness error in shard %r: %s' % (
@@ -127,8 +130,11 @@ def run_shards(prop, mod, tier, seed, specs):
                 out = os.path.join(workdir, 'out%d.json' % i)
                 err = os.path.join(workdir, 'err%d.txt' % i)
                 common.jdump(spec, sp)
+                # spec['optimize']: the application runs its interpreter with -O (assert statements and
+                # `if __debug__` blocks are compiled away)
+                flags = ['-O'] if isinstance(spec, dict) and spec.get('optimize') else []
                 proc = subprocess.Popen(
-                    [sys.executable, '-m', 'vf.runner', prop, '--worker', '--spec', sp,
+                    [sys.executable] + flags + ['-m', 'vf.runner', prop, '--worker', '--spec', sp,
                      '--out', out, '--tier', tier, '--seed', str(seed)],
                     env=env, cwd=common.HOME, stdout=open(err, 'w'), stderr=subprocess.STDOUT)
                 running.append((i, proc, out, time.time(), err))
@@ -291,6 +297,9 @@ def main(argv=None):
         return report(args.prop, shim, rec.get('tier', 'quick'), rec.get('seed', 0), total,
                       time.time() - t0, write_evidence=False)
     specs = mod.plan(args.tier, args.seed)
+    # the first OPTIMIZED_SAMPLE shards of the plan once more in an interpreter started with -O
+    sample = getattr(mod, 'OPTIMIZED_SAMPLE', 0)
+    specs = specs + [dict(s, optimize=True) for s in specs[:sample] if isinstance(s, dict)]
     if args.inline:
         total = Result()
         for spec in specs:
